@@ -66,6 +66,10 @@ func (d *Decoder) ReadPointerFlag() (byte, error) {
 	if err != nil {
 		return 0, err
 	}
+	// an optional / two-variant discriminator is 0 or 1
+	if firstByte > 1 {
+		return 0, fmt.Errorf("invalid discriminator %d", firstByte)
+	}
 	return firstByte, nil
 }
 
